@@ -43,8 +43,8 @@ class C05(Property):
         "distinct by shape key + fault"
     )
     assumptions = ("after a failing connect/run only the error class and phase are compared",)
-    cases = {"quick": 300, "thorough": 6000}
-    min_nontrivial = {"quick": 100, "thorough": 1500}
+    cases = {"quick": 300, "thorough": 20000}
+    min_nontrivial = {"quick": 100, "thorough": 5000}
 
     def gen(self, rnd, i, tier):
         if i % 6 == 5:
